@@ -26,6 +26,7 @@ func init() {
 	r8Wrap("C02", r8C02)
 	r8Wrap("C03", r8C03)
 	r8Wrap("C12", r8C12)
+	r8Wrap("C06", r8C06)
 	r8Wrap("C16", r8C12)
 	replayers["C12WT"] = func(c *ctx, in []string) {
 		k, _ := strconv.Atoi(in[1])
@@ -193,5 +194,20 @@ func r8C12(c *ctx) {
 		c12W(c, comp, -1, []c12wop{{'W', small}, {'F', nil}})
 		c12W(c, comp, -1, []c12wop{{'F', nil}})
 		c12W(c, comp, -1, []c12wop{{'W', nil}, {'C', nil}})
+	}
+}
+
+// r8-C06: ReadFrom with sources of other concrete types (io.WriterTo: *bytes.Reader, *bytes.Buffer, *strings.Reader,
+// *bufio.Reader), EMPTY sources included: a copy of nothing still starts (and the flush ends) a message
+func r8C06(c *ctx) {
+	for _, side := range []byte{1, 2} {
+		for _, ctor := range []string{"s125", "s5", "d0"} {
+			for di, d := range []string{"BR", "BB", "SR", "B16"} {
+				cfg := wcfg{ctor, side, byte(1 + di%2), "-"}
+				runWH(c, "WH", cfg, "r0/1/-/"+d+",fl,w3/2,fl", "-")
+				runWH(c, "WH", cfg, "r5/1/-/"+d+",fl,r0/2/-/"+d+",fl", "-")
+				runWH(c, "WH", cfg, "w2/1,r300/2/-/"+d+",fl,r0/3/-/"+d+",r4/4/-/"+d+",fl", "-")
+			}
+		}
 	}
 }
